@@ -1,6 +1,98 @@
-/-! Driver entry for property C27 (stub: not implemented yet). -/
-namespace HeartwoodModel.Driver.C27
+import HeartwoodModel.Model.Ssh
+import HeartwoodModel.Driver.Util
+/-! Driver entry for C27. Cases (`<op> <arg>…`, bytes in hex):
 
-def run (_args : List String) : String := "unimplemented"
+* `ident <resp>`   — `request_identities::<PublicKey>` on the response → `ok:<key>,<key>…` | `err` | `panic`
+* `sign <resp>`    — `sign` → `ok:<sig>` | `err` | `panic`
+* `ext <resp>`     — `query_extension` → `ok:0|1` | `err` | `panic`
+* `pkread|sigread|skread <bytes>` — `K::read` on a reader at 0 → `ok:<value>` | `err` | `panic`
+* `rtsig <sig64>` / `rtsk <sk64>` — `write`, then `read` → `<written> <result>`
+* `rtpk <pk32>`    — `write`, `read_string`, `PublicKey::read` on the blob → `<written> <result>`
+* `rtids <pk>,<pk>… <comment>,<comment>…` — identities answer built with the writers, then
+  `request_identities` → `<answer> <result>`
+-/
+namespace HeartwoodModel.Driver.C27
+open HeartwoodModel.Ssh HeartwoodModel.Driver.Util
+
+def bytes? (s : String) : Option Bytes := (hexBytes? s).map (·.map UInt8.ofNat)
+
+def hex (b : Bytes) : String := toHex (b.map (·.toNat))
+
+def hexList (bs : List Bytes) : String :=
+  if bs.isEmpty then "-" else joinWith "," (bs.map hex)
+
+/-- Comma-separated list of hex byte strings; `-` is the empty list, `_` an empty element. -/
+def bytesList? (s : String) : Option (List Bytes) :=
+  if s == "-" then some [] else
+  (splitOn s ',').mapM fun t => if t == "_" then some [] else bytes? t
+
+def showRes {α : Type} (f : α → String) : Res α → String
+  | .ok a => "ok:" ++ f a
+  | .err _ => "err"
+  | .panic _ => "panic"
+
+def run (args : List String) : String :=
+  match args with
+  | ["ident", r] =>
+    match bytes? r with
+    | some r => showRes hexList (requestIdentities r)
+    | none => "bad-op"
+  | ["sign", r] =>
+    match bytes? r with
+    | some r => showRes hex (sign r)
+    | none => "bad-op"
+  | ["ext", r] =>
+    match bytes? r with
+    | some r => showRes showBool (queryExtension r)
+    | none => "bad-op"
+  | ["pkread", r] =>
+    match bytes? r with
+    | some r => showRes (fun p => hex p.1) (pkRead (reader r 0))
+    | none => "bad-op"
+  | ["sigread", r] =>
+    match bytes? r with
+    | some r => showRes (fun p => hex p.1) (sigRead (reader r 0))
+    | none => "bad-op"
+  | ["skread", r] =>
+    match bytes? r with
+    | some r => showRes (fun p => hex p.1) (skRead (reader r 0))
+    | none => "bad-op"
+  | ["rtsig", v] =>
+    match bytes? v with
+    | some v =>
+      if v.length = 64 then
+        let w := sigWrite v
+        hex w ++ " " ++ showRes (fun p => hex p.1) (sigRead (reader w 0))
+      else "bad-op"
+    | none => "bad-op"
+  | ["rtsk", v] =>
+    match bytes? v with
+    | some v =>
+      if v.length = 64 then
+        let w := skWrite v
+        hex w ++ " " ++ showRes (fun p => hex p.1) (skRead (reader w 0))
+      else "bad-op"
+    | none => "bad-op"
+  | ["rtpk", v] =>
+    match bytes? v with
+    | some v =>
+      if v.length = 32 then
+        let w := pkWrite v
+        let r : Res Bytes := do
+          let (blob, _) ← (reader w 0).readString
+          let (pk, _) ← pkRead (reader blob 0)
+          pure pk
+        hex w ++ " " ++ showRes hex r
+      else "bad-op"
+    | none => "bad-op"
+  | ["rtids", pks, cms] =>
+    match bytesList? pks, bytesList? cms with
+    | some pks, some cms =>
+      if pks.length = cms.length ∧ pks.all (·.length = 32) then
+        let w := identitiesAnswer (pks.zip cms)
+        hex w ++ " " ++ showRes hexList (requestIdentities w)
+      else "bad-op"
+    | _, _ => "bad-op"
+  | _ => "bad-op"
 
 end HeartwoodModel.Driver.C27
